@@ -302,3 +302,38 @@ CLAIMS["C02"] = {
     "technique": "static analysis: per-block event pairing with a finite-group inverse check, linear normal forms for index "
                  "conventions, vocabulary inclusion, front-insertion and statement-order checks",
 }
+
+
+# Clauses added while testing the checks against independently seeded changes (DESIGN.md §9.5); appended to the claim text.
+EXTRA = {
+    "C01": "Also: gates written as a direct sign update are judged by the GF(2) truth table of their sign function against the Pauli "
+           "commutation rules; a memoised operator's cache key contains every input the cached value depends on (cache.key-complete); the "
+           "representation wrappers forward the determinism setting unchanged (0 is falsy); kron layout and reset-to-|0> shape.",
+    "C02": "Also: the solver never hands a tableau it still needs to a consuming routine (effect.consumed-tableau); the first-element choices of "
+           "emitter/generator lists are guarded (guarded-first, one known finding); inverse_circuit's Z-only pivot is the bottom-most candidate (pivot.choice).",
+    "C03": "Also: every return path's count derives from the row-reduced tableau and the reduction dominates the reads (a conditional reduction is "
+           "reported as analysis-error, exit 2).",
+    "C04": "Also: re-joined edges inherit key/register attributes (edge.keys).",
+    "C05": "Also: scratch accumulator rows are rebuilt in every iteration (acc.fresh, reaching definitions over the back edge); Z-only pivot choice "
+           "(pivot.choice); phase combination of row products (phase-combine).",
+    "C06": "Also: both noise placements of a controlled gate are applied (noise.both-applied, stale-swap-read); mixture weights are preserved (weight.preserve).",
+    "C07": "Also: measurement row sets / outcome use (measure.rowset, measure.outcome-used), destabilizer/stabilizer halves of sign vectors (num.halves).",
+    "C08": "Also: canonical-form comparisons compare canonical forms on both sides (canon.compare); node order of graph conversions (node.order).",
+    "C09": "Also: the random search hands the in-place solver a vector created in the same trial (trial.fresh); block determinants are reduced mod 2 "
+           "before their truth is tested (gf2.truth).",
+    "C10": "Also: conversion gates may be omitted only under an adjacency-equality (or empty lc_check result) guard (conv.guard); the duplicate filter "
+           "sees every result entry (dedup.covers-all).",
+    "C11": "Also: consumed-tableau discipline, Z-only pivot choice (pivot.choice), direct sign-update gate forms.",
+    "C12": "Also: node-label index maintenance on add/remove/replace (sibling.nodekeys) and re-joined edge attributes.",
+    "C13": "Also: a .copy() of a container of tableaux is shallow and still aliases (effect.alias-into-state).",
+    "C14": "Also: importer regexes are inspected as syntax trees (regex.repeated-group), header/register coverage (header.cover).",
+    "C15": "Also: multi-edge matching and both-end roles (cmp.multiedge), node-label index (sibling.nodekeys).",
+    "C16": "Also: iso_finder's result is one whole de-duplicated batch, a slice or a re-ordering of one, and explorers test candidates against the "
+           "whole list they append to (distinct.source).",
+    "C17": "Also: eigh/sqrtm_psd/hermitianize receive matrices that are Hermitian by construction (num.hermitian-arg); the partial-trace subscript is "
+           "checked per axis position (row letter / column letter of kept and dropped axis i).",
+    "C18": "Also: loops that remove the element they iterate over walk a snapshot (iter.snapshot); the three emitter-depth metrics read each "
+           "emitter's own gate history on the unwrapped, identity-free copy (metric.source).",
+    "C19": "Also: hall-of-fame / population members are fresh objects per iteration.",
+    "C20": "Also: the global-phase pivot of check_equivalent_unitaries is a provably non-zero entry (phase.pivot).",
+}
